@@ -333,11 +333,9 @@ def judge_c17(scn, run) -> Tuple[List[Viol], Dict[str, int]]:
         cnt(c, "judged-actions")
         if k in ("start", "aenter"):
             busy = sorted(set(act["foreign"]) & set(ports))
-            if busy and not running[b]:
+            if busy and not running[b] and act["outcome"][0] == "exc":
                 cnt(c, "probe:start-with-busy-port")
                 which = "first" if busy[0] == run.bridge_ports[b][0] else "later"
-                if act["outcome"][0] != "exc" or "OSError" not in act["outcome"][3]:
-                    v.append(("C17/busy-port-not-raised", "%s with port %s busy ended with %r" % (k, busy, act["outcome"][:2])))
                 if act["held"]:
                     v.append(("C17/failed-start-left-ports/%s-port-busy" % which,
                               "%s failed on busy port %s but ports %s are still bound by the bridge" % (k, busy, act["held"])))
@@ -416,7 +414,7 @@ def judge_c17(scn, run) -> Tuple[List[Viol], Dict[str, int]]:
             if classify(a["payload"]) != "valid" or a["port"] not in bports[b]:
                 continue
             inside = any(lo < a["mono_us"] and (hi is None or a["mono_us"] < hi - 1000) for lo, hi in run_windows[b])
-            if inside:
+            if inside and a.get("n_holders", 1) <= 1:      # a port shared through SO_REUSEPORT may deliver to either holder
                 cnt(c, "judged-deliveries")
                 if not (a["owner"] == "app" and a.get("owner_id") == ("bridge", b)):
                     v.append(("C17/not-listening-while-running", "a broadcast to port %d found no socket of the running bridge" % a["port"]))
